@@ -1,5 +1,6 @@
 import P2.Props.C01
 import P2.Proofs.LangMono
+import P2.Proofs.Memo
 /-! # C10 — a generated function is a pure function of its arguments across evaluations
 
 In the model `Func.Eval` is `runCompiled M fuel code`: every evaluation starts from a fresh storage
@@ -7,8 +8,11 @@ In the model `Func.Eval` is `runCompiled M fuel code`: every evaluation starts f
 survives an evaluation. What the Go implementation additionally keeps between evaluations — the
 materialisation cache of list objects reachable from constants (shown unobservable by C09
 `abs_stable`), the optimizer's scratch stack (only used during Generate) and package-level variables —
-is outside this model and is covered by the history harness `tie C10`, which compares every outcome
-of a 50-step history with the isolated first evaluation and with this model. -/
+is outside THAT model; the materialisation cache is modelled on its own as a memo cell (`P2.Memo`, second half of
+this file: `memo_history_outcome`, `memo_history_transparent`, `memo_failing_step_harmless`, with the witness
+`memo_cache_hides_overflow` that full transparency fails exactly at the value-stack limit), the rest is covered by
+the history harness `tie C10`, which compares every outcome of a 50-step history with the isolated first evaluation
+and with this model. -/
 namespace P2.C10
 open P2.Lang P2.C01
 
@@ -50,5 +54,92 @@ not depend on how much fuel the evaluations were given (`Proofs/LangMono.lean`) 
 theorem eval_fuel_irrelevant (M : Methods) (fuel fuel' : Nat) (code : Code) (args : List Val) (r : R Val)
     (h : runCompiled M fuel code args = r) (hr : r ≠ .fuel) (hle : fuel ≤ fuel') :
     runCompiled M fuel' code args = r := runCompiled_fuel_mono M h hr hle
+
+/-! ## The state that does survive an evaluation: the memo cell of a shared lazy list (`P2.Memo`)
+
+A list reachable from a constant (or kept by the host) is shared by all evaluations; `List.Eval` stores the items
+on the first complete materialisation. An evaluation sees the cell through `force` (everything that materialises)
+and `iter` (everything that only iterates); what it contributes is its number of free value-stack slots. -/
+open P2.Memo in
+/-- C10 (memo cell, full statement as far as it is TRUE of the code): after ANY history of operations by earlier
+evaluations — succeeding, failing, partially consuming, with any number of free slots — an operation shows what it
+shows on an untouched list, or, where the untouched list would make this evaluation run out of value stack, what it
+shows with enough stack. -/
+theorem memo_history_outcome (src : List Item) (hist : List Op) (o : Op) :
+    (((fresh src).after hist).step o).2 = isolated src o ∨
+      ((isolated src o).2 = some .overflow ∧
+        (((fresh src).after hist).step o).2 = isolated src (o.withFree (maxNeed src))) := by
+  have h := step_outcome ((fresh src).after hist) (after_inv _ hist (inv_fresh src)) o
+  rw [after_src] at h
+  exact h
+
+open P2.Memo in
+/-- C10.1 on the memo cell (`…_partial`: the hypothesis `maxNeed src ≤ o.free` excludes the evaluations that sit at the
+value-stack limit; `memo_cache_hides_overflow` shows it cannot be dropped): an evaluation with enough stack for the
+list's own closures sees exactly what the first evaluation with its arguments sees, whatever happened before. -/
+theorem memo_history_transparent (src : List Item) (hist : List Op) (o : Op) (hfree : maxNeed src ≤ o.free) :
+    (((fresh src).after hist).step o).2 = isolated src o := by
+  rcases memo_history_outcome src hist o with h | ⟨hov, _⟩
+  · exact h
+  · exact absurd hov (isolated_no_overflow src o hfree)
+
+open P2.Memo in
+/-- the same for whole histories: the outcomes of a history are the isolated outcomes, one by one -/
+theorem memo_outcomes_transparent (src : List Item) (hist : List Op) (hfree : ∀ o ∈ hist, maxNeed src ≤ o.free) :
+    (fresh src).outcomes hist = hist.map (isolated src) := by
+  suffices h : ∀ (pre : List Op), ((fresh src).after pre).outcomes hist = hist.map (isolated src) from h []
+  induction hist with
+  | nil => intro _; rfl
+  | cons o os ih =>
+    intro pre
+    simp only [Cell.outcomes, List.map_cons]
+    have h1 := memo_history_transparent src pre o (hfree o (List.mem_cons_self ..))
+    have h2 := ih (fun o' ho' => hfree o' (List.mem_cons_of_mem _ ho')) (pre ++ [o])
+    have h3 : (fresh src).after (pre ++ [o]) = (((fresh src).after pre).step o).1 := after_snoc _ pre o
+    rw [h3] at h2
+    rw [h1, h2]
+
+open P2.Memo in
+/-- C10.3 on the memo cell: an operation that fails (stack overflow or error item, at ANY point of the
+materialisation) leaves the cell exactly as it was — nothing of an aborted materialisation is kept. -/
+theorem memo_failing_step_harmless (c : Cell) (o : Op) (h : (c.step o).2.2 ≠ none) : (c.step o).1 = c :=
+  failing_step_unchanged c o h
+
+open P2.Memo in
+/-- iteration without materialisation (first, top, a downstream stage, printing) never changes the cell -/
+theorem memo_partial_consumption_harmless (c : Cell) (free k : Nat) : (c.step (.iter free k)).1 = c :=
+  iter_unchanged c free k
+
+open P2.Memo in
+/-- what is kept is right: in every reachable cell the stored items are the values of the producer -/
+theorem memo_cache_correct (src : List Item) (hist : List Op) (xs : List Nat)
+    (h : ((fresh src).after hist).cache = some xs) : xs = vals src := by
+  have := after_inv (fresh src) hist (inv_fresh src) xs h
+  rw [after_src] at this
+  exact this.1
+
+open P2.Memo in
+/-- The hypothesis of `memo_history_transparent` is needed — and the CODE behaves like the model here (open finding
+`C10-stack-limit-hidden-by-materialised-constant`): an evaluation that would run out of value stack while it
+materialises the list succeeds when an earlier evaluation has materialised it. -/
+theorem memo_cache_hides_overflow :
+    let src : List Item := [⟨7, 1, false⟩, ⟨8, 2, false⟩]
+    isolated src (.force 1) = ([], some .overflow) ∧
+      (((fresh src).after [.force 2]).step (.force 1)).2 = ([7, 8], none) := by decide
+
+open P2.Memo in
+/-- the premises are satisfiable on a history that fails in the middle and succeeds later -/
+example :
+    let src : List Item := [⟨7, 1, false⟩, ⟨8, 2, false⟩]
+    (fresh src).outcomes [.force 1, .iter 2 1, .force 2, .iter 0 5, .force 0] =
+      [([], some .overflow), ([7], none), ([7, 8], none), ([7, 8], none), ([7, 8], none)] := by decide
+
+open P2.Memo in
+/-- The cell of a seeded change (`Eval` appends straight into `l.items`) is NOT transparent even with enough stack:
+the aborted first materialisation leaves its first item behind. -/
+theorem memo_pinned_append_in_place_differs :
+    let src : List Item := [⟨7, 1, false⟩, ⟨8, 2, false⟩]
+    let p0 : Pinned := ⟨src, [], false⟩
+    ((p0.force 1).1.force 2).2 = ([7, 7, 8], none) ∧ isolated src (.force 2) = ([7, 8], none) := by decide
 
 end P2.C10
